@@ -84,8 +84,12 @@ def register(reg, stubs, world):
         three = z3.Or(clsof(V.ref(r)) == eng.cid('$Custom3'), clsof(V.ref(r)) == eng.cid('$CustomCheck3'))
         return [z3.Implies(three, z3.And(EV(r, t, c, e, cur) == EV3(r, t, c, e),
                                          EVX(r, t, c, e, cur) == EVX3(r, t, c, e)))]
+    def check_cases(cx):
+        r, eng = cx['rule'], cx.eng
+        three = z3.Or(clsof(V.ref(r)) == eng.cid('$Custom3'), clsof(V.ref(r)) == eng.cid('$CustomCheck3'))
+        return [three, z3.Not(three)]
     reg.add(Contract('_checks:_check', pre=check_pre, post=check_post, defs=check_defs, raises=EVAL_RAISES,
-                     axioms=check_axioms,
+                     axioms=check_axioms, cases=check_cases, ncases=2,
                      props=('C01', 'C06', 'C16'),
                      doc='evaluates rule with target, creds, enforcer unchanged; current_rule iff the class takes it'))
 
@@ -229,6 +233,7 @@ def register(reg, stubs, world):
                  forall_idx(L.i, lambda k: z3.Not(walk(L.elem(k), rest, m)), 'finv'))]
     reg.add(Contract('_checks:GenericCheck._find_in_dict', pre=find_pre, post=find_post,
                      loops={1: LoopSpec(find_inv)}, props=('C05', 'C14'), axioms=find_axioms,
+                     decreases=lambda cx: z3.Length(cx.eng.seq_of(cx.st0, cx['path_segments'])),
                      cases=lambda cx: [V.is_obj(cx['test_value']), z3.Not(V.is_obj(cx['test_value']))],
                      doc='equals walk(): dict step, missing key or non-container denies, lists fan out'))
 
